@@ -3,7 +3,9 @@ package c09
 
 import (
 	"bytes"
+	stdecdsa "crypto/ecdsa"
 	"crypto/elliptic"
+	"crypto/sha512"
 	"encoding/hex"
 	"fmt"
 	"math/big"
@@ -36,6 +38,19 @@ type universe struct {
 	indexKeys  [4]*big.Int
 	refIndex   [4][4][]byte
 	anon       [4][]byte // the last one is the EMPTY anonymous origin ID
+	// authentic requests of clients 0 and 1 made with unusual blind VALUES (all-ff, N+5), built by the harness itself
+	// (the attester never looks behind the ciphertext): request key = client key blinded with that blind, signed with d*r
+	oddReq   [2][2]type3.RateLimitedTokenRequest
+	oddBlind [2][]byte
+}
+
+// anonOf: anonymous origin IDs 0..3 are fixed strings; ID 4 is, for each client, byte-equal to the ISSUER origin ID
+// (index value) of origin 1 for that client - the two kinds of identifier live in different name spaces.
+func (u *universe) anonOf(c, a int) []byte {
+	if a == 4 {
+		return u.refIndex[c][1]
+	}
+	return u.anon[a]
 }
 
 var (
@@ -79,6 +94,28 @@ func theUniverse() *universe {
 			u.anon[a] = bytes.Repeat([]byte{byte(0xA0 + a)}, 32)
 		}
 		u.anon[3] = []byte{}
+		u.oddBlind = [2][]byte{bytes.Repeat([]byte{0xff}, 48), new(big.Int).Add(n, big.NewInt(5)).Bytes()}
+		for c := 0; c < 2; c++ {
+			for k, bl := range u.oddBlind {
+				r := ref.ECDSABlindScalar(elliptic.P384(), new(big.Int).SetBytes(bl), ref.ClientBlindCtx)
+				db := new(big.Int).Mul(new(big.Int).SetBytes(u.secrets[c]), r)
+				db.Mod(db, n)
+				bx, by := elliptic.P384().ScalarBaseMult(db.Bytes())
+				req := type3.RateLimitedTokenRequest{RequestKey: elliptic.MarshalCompressed(elliptic.P384(), bx, by), NameKeyID: bytes.Repeat([]byte{0x11}, 32), EncryptedTokenRequest: bytes.Repeat([]byte{0x22}, 80)}
+				dg := sha512.Sum384(ref.EncodeRateLimitedRequest(req.RequestKey, req.NameKeyID, req.EncryptedTokenRequest, nil))
+				rr, ss, err := stdecdsa.Sign(rt.NewDRBG([]byte{byte(c), byte(k)}), &stdecdsa.PrivateKey{PublicKey: stdecdsa.PublicKey{Curve: elliptic.P384(), X: bx, Y: by}, D: db}, dg[:])
+				if err != nil {
+					panic(err)
+				}
+				req.Signature = make([]byte, 96)
+				rr.FillBytes(req.Signature[:48])
+				ss.FillBytes(req.Signature[48:])
+				if !bytes.Equal(req.RequestKey, ref.BlindCompressed(u.clientKeys[c], new(big.Int).SetBytes(bl), ref.ClientBlindCtx)) {
+					panic("harness: blinded signing key does not match the blinded public key")
+				}
+				u.oddReq[c][k] = req
+			}
+		}
 		uni = u
 	})
 	return uni
@@ -88,6 +125,7 @@ func theUniverse() *universe {
 type step struct {
 	verify        bool
 	failingVerify bool // a VerifyRequest that must be refused: another client's request presented under this client's key
+	oddBlind      int  // verify: 0 = the client's honest request; 1, 2 = the harness-built authentic request with blind all-ff / N+5
 	client        int
 	origin        int
 	anon          int
@@ -97,6 +135,9 @@ type step struct {
 func (s step) String() string {
 	if s.failingVerify {
 		return fmt.Sprintf("verify-mismatch(c%d)", s.client)
+	}
+	if s.verify && s.oddBlind > 0 {
+		return fmt.Sprintf("verify-unusual-blind%d(c%d)", s.oddBlind, s.client)
 	}
 	if s.verify {
 		return fmt.Sprintf("verify(c%d)", s.client)
@@ -118,7 +159,7 @@ func runHistory(h []step) (violation string, sig string, interesting bool) {
 		requestKey := ref.BlindCompressed(u.clientKeys[c], new(big.Int).SetBytes(blind), ref.ClientBlindCtx)
 		blindedReqKey := ref.BlindCompressed(requestKey, u.indexKeys[o], ref.IssuerBlindCtx) // what the issuer would return for origin o
 		// the attester gets private copies of its byte arguments, which the caller overwrites right after the call
-		args := [][]byte{append([]byte{}, u.clientKeys[c]...), append([]byte{}, blind...), append([]byte{}, blindedReqKey...), append([]byte{}, u.anon[a]...)}
+		args := [][]byte{append([]byte{}, u.clientKeys[c]...), append([]byte{}, blind...), append([]byte{}, blindedReqKey...), append([]byte{}, u.anonOf(c, a)...)}
 		var id []byte
 		var err error
 		if out := rt.GuardLite(func() { id, err = att.FinalizeIndex(args[0], args[1], args[2], args[3]) }); out.Panic != nil {
@@ -147,7 +188,15 @@ func runHistory(h []step) (violation string, sig string, interesting bool) {
 				continue // client 2 is never verified
 			}
 			vargs := [][]byte{append([]byte{}, u.verifyBl[st.client]...), append([]byte{}, u.clientKeys[st.client]...), append([]byte{}, u.anon[0]...)}
-			verr := att.VerifyRequest(*u.states[st.client].Request(), vargs[0], vargs[1], vargs[2])
+			vreq := *u.states[st.client].Request()
+			if st.oddBlind > 0 {
+				vargs[0] = append([]byte{}, u.oddBlind[st.oddBlind-1]...)
+				vreq = u.oddReq[st.client][st.oddBlind-1]
+			}
+			var verr error
+			if out := rt.GuardLite(func() { verr = att.VerifyRequest(vreq, vargs[0], vargs[1], vargs[2]) }); out.Panic != nil {
+				return fmt.Sprintf("step %d %v: VerifyRequest panicked: %v", i, st, out.Panic), "C09/panic", false
+			}
 			for _, b := range vargs {
 				for i := range b {
 					b[i] = 0x5A // the caller reuses its buffers
@@ -197,7 +246,7 @@ func runHistory(h []step) (violation string, sig string, interesting bool) {
 		if _, err := finalize(a.c, a.o, a.a, bytes.Repeat([]byte{0x77}, 40)); err != nil {
 			return fmt.Sprintf("after the history, the accepted pair (c%d,o%d,a%d) is rejected: %v", a.c, a.o, a.a, err), "C09/binding-lost", false
 		}
-		other := (a.a + 1) % 4
+		other := (a.a + 1) % 5
 		if bound[a.c][hex.EncodeToString(u.refIndex[a.c][a.o])] != other {
 			if _, err := finalize(a.c, a.o, other, bytes.Repeat([]byte{0x78}, 40)); err == nil {
 				return fmt.Sprintf("after the history, a second anonymous origin ID a%d is accepted for (c%d,o%d) already bound to a%d", other, a.c, a.o, a.a), "C09/two-anon-ids", false
@@ -216,15 +265,19 @@ func histString(h []step) string {
 }
 
 func TestHistories(t *testing.T) {
-	s := rt.S("histories").SetRule("rapid state machine over {verify(client), finalize(client, origin, anonymous origin ID) with a fresh drawn blind} on 4 client keys (one never verified, one the negation of a verified key), 4 origins (two share an index key), 4 anonymous origin IDs (one of them empty), failing verifications (another client's request under this client's key), up to 30 steps; model: registered[client], bound[client][index]; invariant after every step: decision == (registered and (index unbound or bound to this ID)), returned ID == reference HKDF value; at the end every accepted pair is replayed (still accepted) and a second ID for a bound index is refused. non-trivial = history containing a rejection followed by a later accept, or a collision between origins sharing an index key; distinct by history")
+	s := rt.S("histories").SetRule("rapid state machine over {verify(client), finalize(client, origin, anonymous origin ID) with a fresh drawn blind} on 4 client keys (one never verified, one the negation of a verified key), 4 origins (two share an index key), 5 anonymous origin IDs (one of them empty, one byte-equal to the client's issuer origin ID for another origin), verifications with authentic requests whose blind is ff..ff or N+5, failing verifications (another client's request under this client's key), up to 30 steps; model: registered[client], bound[client][index]; invariant after every step: decision == (registered and (index unbound or bound to this ID)), returned ID == reference HKDF value; at the end every accepted pair is replayed (still accepted) and a second ID for a bound index is refused. non-trivial = history containing a rejection followed by a later accept, or a collision between origins sharing an index key; distinct by history")
 	rt.Check(t, 150, 20000, func(t *rapid.T) {
 		var h []step
 		t.Repeat(map[string]func(*rapid.T){
 			"verify": func(t *rapid.T) {
-				h = append(h, step{verify: true, client: gen.Uniform(t, 3, "client")})
+				st := step{verify: true, client: gen.Uniform(t, 3, "client")}
+				if st.client < 2 {
+					st.oddBlind = []int{0, 0, 1, 2}[gen.Uniform(t, 4, "unusualBlind")]
+				}
+				h = append(h, st)
 			},
 			"finalize": func(t *rapid.T) {
-				h = append(h, step{client: gen.Uniform(t, 4, "client"), origin: gen.Uniform(t, 4, "origin"), anon: gen.Uniform(t, 4, "anon"), blind: gen.P384KeyBytes().Draw(t, "blind")})
+				h = append(h, step{client: gen.Uniform(t, 4, "client"), origin: gen.Uniform(t, 4, "origin"), anon: gen.Uniform(t, 5, "anon"), blind: gen.P384KeyBytes().Draw(t, "blind")})
 			},
 			"verifyMismatch": func(t *rapid.T) {
 				h = append(h, step{failingVerify: true, client: gen.Uniform(t, 3, "client")})
@@ -250,7 +303,7 @@ func TestHistories(t *testing.T) {
 
 // TestAllShortHistories: bounded-exhaustive enumeration of every history up to a length over a 10-letter alphabet.
 func TestAllShortHistories(t *testing.T) {
-	s := rt.S("all-short-histories").SetRule("EVERY history of length <= 3 (quick) / <= 4 (thorough) over the 14-letter alphabet {verify-mismatch(c2), verify-mismatch(c0), finalize(c0,o0,empty anon ID), verify(c0), verify(c1), finalize(c0,o0,a0), finalize(c0,o0,a1), finalize(c0,o3,a0), finalize(c0,o3,a1), finalize(c0,o1,a0), finalize(c1,o0,a0), finalize(c1,o0,a1), finalize(c2,o0,a0)} with fixed blinds; same model and invariants; non-trivial = every history of length >= 2; distinct by construction")
+	s := rt.S("all-short-histories").SetRule("EVERY history of length <= 3 (quick) / <= 4 (thorough) over the 16-letter alphabet {verify-mismatch(c2), verify-mismatch(c0), finalize(c0,o0,empty anon ID), verify(c0), verify(c1), finalize(c0,o0,a0), finalize(c0,o0,a1), finalize(c0,o3,a0), finalize(c0,o3,a1), finalize(c0,o1,a0), finalize(c1,o0,a0), finalize(c1,o0,a1), finalize(c2,o0,a0), verify(c0) with an authentic request whose blind is ff..ff, finalize(c0,o0, anon ID := issuer origin ID of (c0,o1))} with fixed blinds; same model and invariants; non-trivial = every history of length >= 2; distinct by construction")
 	bl := bytes.Repeat([]byte{0x42}, 33)
 	alphabet := []step{
 		{verify: true, client: 0}, {verify: true, client: 1},
@@ -263,6 +316,8 @@ func TestAllShortHistories(t *testing.T) {
 		{client: 3, origin: 0, anon: 0, blind: bl}, // the negation of client 0's key: never verified
 		{failingVerify: true, client: 2},
 		{failingVerify: true, client: 0},
+		{verify: true, client: 0, oddBlind: 1},     // authentic request made with the blind ff..ff
+		{client: 0, origin: 0, anon: 4, blind: bl}, // anonymous origin ID byte-equal to the issuer origin ID of (c0, o1)
 	}
 	maxLen := 3
 	if rt.Thorough() {
@@ -294,6 +349,6 @@ func TestAllShortHistories(t *testing.T) {
 	rec(nil)
 	s.EvalN(cnt)
 	s.NontrivialEnum(nontrivial)
-	s.MarkExhaustive(fmt.Sprintf("all histories of length <= %d over a 14-letter alphabet", maxLen))
+	s.MarkExhaustive(fmt.Sprintf("all histories of length <= %d over a 16-letter alphabet", maxLen))
 	s.Sample(func() any { return histString([]step{alphabet[0], alphabet[2], alphabet[5], alphabet[4]}) })
 }
